@@ -28,6 +28,8 @@ package syncer
 //@   set cur = startOffset + incrOffset after store incrOffset
 //@   assert at send sendBuf: command_end: sent.Offset == cur
 //@   assert at send sendBuf: monotone: sent.Offset >= sentHigh
+//@   assert at send sendBuf: db_tag [C01]: sent.Cmd == "select" || sent.Db == currentDB
+//@   assert at send sendBuf: select_names_current_db [C01]: sent.Cmd == "select" && currentDB != 0 - 1 ==> sent.Db == currentDB
 //@   set sentHigh = sent.Offset after send sendBuf
 //@   loop 1:
 //@     invariant decoder: decoder != nil && decoder.r != nil && decoder.offset >= 0
